@@ -45,12 +45,18 @@ func (c *clientWrapper) Call(ctx context.Context, req client.Request, rsp interf
 		slotChain := sentinel.BuildDefaultSlotChain()
 		slotChain.AddRuleCheckSlot(outlier.DefaultSlot)
 		slotChain.AddStatSlot(outlier.DefaultMetricStatSlot)
-		entry, _ := sentinel.Entry(
+		entry, blockErr := sentinel.Entry(
 			req.Service(),
 			sentinel.WithResourceType(base.ResTypeRPC),
 			sentinel.WithTrafficType(base.Outbound),
 			sentinel.WithSlotChain(slotChain),
 		)
+		if blockErr != nil {
+			if options.clientBlockFallback != nil {
+				return options.clientBlockFallback(ctx, req, blockErr)
+			}
+			return blockErr
+		}
 		defer entry.Exit()
 		opts = append(opts, WithSelectOption(entry))
 		opts = append(opts, WithCallWrapper(entry))
@@ -85,19 +91,31 @@ func (c *clientWrapper) Stream(ctx context.Context, req client.Request, opts ...
 		}
 		return stream, err
 	} else {
-		slotChain := sentinel.GlobalSlotChain()
+		// a private chain, as in Call: the global chain must not grow with every stream
+		slotChain := sentinel.BuildDefaultSlotChain()
 		slotChain.AddRuleCheckSlot(outlier.DefaultSlot)
 		slotChain.AddStatSlot(outlier.DefaultMetricStatSlot)
-		entry, _ := sentinel.Entry(
+		entry, blockErr := sentinel.Entry(
 			req.Service(),
 			sentinel.WithResourceType(base.ResTypeRPC),
 			sentinel.WithTrafficType(base.Outbound),
 			sentinel.WithSlotChain(slotChain),
 		)
+		if blockErr != nil {
+			if options.streamClientBlockFallback != nil {
+				return options.streamClientBlockFallback(ctx, req, blockErr)
+			}
+			return nil, blockErr
+		}
 		defer entry.Exit()
 		opts = append(opts, WithSelectOption(entry))
 		opts = append(opts, WithCallWrapper(entry))
-		return c.Client.Stream(ctx, req, opts...)
+		// the rpc client applies call wrappers to Call only: trace the stream error here
+		stream, err := c.Client.Stream(ctx, req, opts...)
+		if err != nil {
+			sentinel.TraceError(entry, err)
+		}
+		return stream, err
 	}
 }
 
